@@ -69,7 +69,7 @@ InDomain(L, req) ==
   /\ Len(L) > 0
   /\ req = 0 \/ req \in Models(L)
   /\ \A i \in Idx(L) : L[i].ic \notin NullMarkers /\ L[i].m >= 1 /\ L[i].occ >= -1
-  /\ BlocksOK(L, LAMBDA i : L[i].m)
+  \* (the rows of a model need not be contiguous: an mmCIF table may alternate between its models)
   \* a residue is one contiguous block; a later, separate block of it may only REPEAT atoms already listed
   \* (an alternate conformer written as a block of its own after the next residue)
   /\ \A j \in 3..Len(L) :
